@@ -83,7 +83,9 @@ SnapOps ==
 
 MCNext ==
   \/ /\ ~s.intx /\ s.txn < MaxTx
-     /\ \E a \in Addr : Do("BeginTx", BeginTx(s, a), [op |-> "BeginTx", a |-> a, tx |-> s.txn])
+     /\ \/ \E a \in Addr : Do("BeginTx", BeginTx(s, a), [op |-> "BeginTx", a |-> a, tx |-> s.txn])
+        \/ \E a, d \in Addr, k \in Slot :
+              Do("BeginTxL", BeginTxL(s, a, d, k), [op |-> "BeginTxL", a |-> a, i |-> d, k |-> k, tx |-> s.txn])
   \/ /\ s.intx
      /\ (AccountOps \/ AuxOps \/ SnapOps)
   \/ /\ s.intx
